@@ -224,6 +224,10 @@ def d1_pairing(ctx):
     n_prod = t.products
     # the Obs built from the products lives on the observable's own lists
     for c in walk(f):
+        if isinstance(c, ast.Call) and call_name(c) == 'Obs' and kwarg(c, 'idl') is None and not any(k.arg is None for k in c.keywords) and len(c.args) < 3:
+            ctx.violated(rule, 'obs.py:reweight#Obs-without-idl[%s]' % unparse(c.args[0])[:30] if c.args else 'obs.py:reweight#Obs-without-idl',
+                         '`%s` is built without idl: its samples are numbered 1..n by position, not by the configuration numbers of the reweighted observable; the ratio then merges two '
+                         'different configuration lists' % unparse(c)[:90], obs.loc(c))
         if isinstance(c, ast.Call) and call_name(c) == 'Obs' and kwarg(c, 'idl') is not None:
             idl = kwarg(c, 'idl')
             ok = isinstance(idl, ast.ListComp) and _idl_ref(idl.elt) is not None and _idl_ref(idl.elt)[0].startswith(f.args.args[1].arg)
